@@ -230,6 +230,42 @@ def configured_sizes():
     return guarded("configured", run)
 
 
+def config_file_reaches_the_program():
+    """through convert_file() / the command line: the per-name sizes of the configuration file reach the DIM statements exactly as the same
+    configuration object does through convert()"""
+    def run():
+        import io
+        import os
+        import tempfile
+        from coco.b09 import compiler
+        from coco import decb_to_b09
+        res = []
+        src = "10 DIM A$,B$(7),C$\n20 D$=A$+C$\n"
+        d = tempfile.mkdtemp(dir=os.environ.get("XDG_RUNTIME_DIR") or "/dev/shm")
+        try:
+            cfgp = os.path.join(d, "sizes.yaml")
+            open(cfgp, "w").write("string_configs:\n  strname_to_size:\n    A$: 100\n    B$(): 10\n")
+            cfg = CompilerConfigs(string_configs=StringConfigs(strname_to_size={"A$": 100, "B$()": 10}))
+            for size in (80, 32, 255):
+                want = convert(src, default_str_storage=size, compiler_configs=cfg).replace("\n", "\r")
+                out = io.StringIO()
+                compiler.convert_file(io.StringIO(src), out, default_str_storage=size, config_file=cfgp)
+                res.append(ob("config-file/convert_file, size %d" % size, out.getvalue() == want and "STRING[100]" in want and "STRING[10]" in want, "the text convert() gives with the same configuration (A$: 100, B$(): 10)",
+                              "identical" if out.getvalue() == want else [l for l in out.getvalue().split("\r") if "DIM" in l][:4]))
+                srcp, dstp = os.path.join(d, "prog.bas"), os.path.join(d, "out.b09")
+                open(srcp, "w").write(src)
+                decb_to_b09.start(["-s", str(size), "-c", cfgp, "-z", "-D", srcp, dstp])
+                got = open(dstp, newline="").read()
+                want2 = convert(src, default_str_storage=size, compiler_configs=cfg, initialize_vars=False, output_dependencies=False, procname="prog").replace("\n", "\r")
+                res.append(ob("config-file/command line, size %d" % size, got == want2, "the text convert() gives with the same configuration", "identical" if got == want2 else [l for l in got.split("\r") if "DIM" in l][:4]))
+        finally:
+            for f in os.listdir(d):
+                os.unlink(os.path.join(d, f))
+            os.rmdir(d)
+        return res
+    return guarded("config-file", run)
+
+
 def positions():
     out = []
     cfg = CompilerConfigs(string_configs=StringConfigs(strname_to_size={"N$()": 40}))
@@ -265,5 +301,5 @@ def obligations():
     # the requested size reaches the library through `string<<>>`: a sized string handed on inside the library keeps it
     from tx.p_c14 import sized_strings_stay_sized
     from tx import p_c09, p_c13
-    return dim_contract() + pass_steps() + positions() + configured_sizes() + sized_strings_stay_sized() + __import__("tx.p_c05", fromlist=["share"]).share("once/", p_c09.kinds_in_declarations()) + __import__("tx.p_c05", fromlist=["share"]).share(
+    return dim_contract() + pass_steps() + positions() + configured_sizes() + config_file_reaches_the_program() + sized_strings_stay_sized() + __import__("tx.p_c05", fromlist=["share"]).share("once/", p_c09.kinds_in_declarations()) + __import__("tx.p_c05", fromlist=["share"]).share(
         "bundled/", [o for o in p_c13.regex_contracts() if "STR_STORAGE_TAG" in o["id"]] + p_c13.requested_size_reaches_bundle())
